@@ -16,7 +16,8 @@ def strip(e):
 
 def main():
     modname, famname = sys.argv[1].split(":")
-    fam = getattr(importlib.import_module(modname), famname)
+    _m = importlib.import_module(modname)
+    fam = getattr(_m, famname) if hasattr(_m, famname) else _m.CHECKS[famname]
     rj = json.load(open(sys.argv[2]))
     case = rj["cases"][0]
     want = set([sys.argv[3]]) if len(sys.argv) > 3 else set(rj.get("clauses", []))
